@@ -1568,13 +1568,17 @@ class Client:
         self._sock_close()
 
         # Mark all currently outgoing QoS = 0 packets as lost,
-        # or `wait_for_publish()` could hang forever
-        for pkt in self._out_packet:
+        # or `wait_for_publish()` could hang forever.
+        # The queue is drained packet by packet: another thread may append while we are here,
+        # and nothing may be dropped without having been looked at.
+        while True:
+            try:
+                pkt = self._out_packet.popleft()
+            except IndexError:
+                break
             if pkt["command"] & 0xF0 == PUBLISH and pkt["qos"] == 0 and pkt["info"] is not None:
                 pkt["info"].rc = MQTT_ERR_CONN_LOST
                 pkt["info"]._set_as_published()
-
-        self._out_packet.clear()
 
         with self._msgtime_mutex:
             self._last_msg_in = time_func()
